@@ -345,6 +345,31 @@ def parse_assumptions(log):
     return res
 
 
+def coqchk(prop_dir, timeout=3000):
+    """coqchk -o on <prop_dir>.Properties: (ok, detail, axioms listed)"""
+    try:
+        p = subprocess.run(["coqchk", "-silent", "-o", "-Q", "theories", "JrV", f"JrV.{prop_dir}.Properties"],
+                           cwd=COQ, stdout=subprocess.PIPE, stderr=subprocess.STDOUT, text=True, timeout=timeout)
+    except subprocess.TimeoutExpired:
+        return False, "coqchk timed out", []
+    out = p.stdout
+    if p.returncode != 0 or "CONTEXT SUMMARY" not in out:
+        return False, out[-600:], []
+    summ = out[out.index("CONTEXT SUMMARY"):]
+
+    def section(title):
+        m = re.search(r"\* " + re.escape(title) + r":(.*?)(?=\n\* |\Z)", summ, re.S)
+        body = (m.group(1) if m else "").strip()
+        return [] if body in ("<none>", "") else [ln.strip() for ln in body.split("\n") if ln.strip()]
+    axioms = section("Axioms")
+    bad = [a for a in axioms if a.split()[0] not in ALLOWED_AXIOMS and a.split()[0].split(".")[-1] not in ALLOWED_AXIOMS]
+    unsafe = (section("Constants/Inductives relying on type-in-type")
+              + section("Constants/Inductives relying on unsafe (co)fixpoints")
+              + section("Inductives whose positivity is assumed"))
+    ok = not bad and not unsafe and "Set is predicative" in summ
+    return ok, "; ".join(bad + unsafe)[:600], axioms
+
+
 def check_property_file(run, prop_dir):
     """Compile <prop_dir>/{Model,Proofs,Properties,Pins}.v, audit, and register one obligation
     per theorem pinned in Pins.v.  Returns True when every obligation is discharged."""
@@ -375,6 +400,12 @@ def check_property_file(run, prop_dir):
     run.obligation(f"{prop_dir}.assumptions(allow-listed stdlib axioms only)", not bad_ax, "; ".join(bad_ax))
     run.obligation(f"{prop_dir}.pins(every property theorem re-stated in Pins.v)", not missing_pin,
                    "; ".join(missing_pin))
+    if ok and run.tier == "thorough":
+        # independent re-check of the compiled property theorems and everything they depend on
+        ck_ok, ck_detail, ck_ax = coqchk(prop_dir)
+        run.obligation(f"{prop_dir}.coqchk(independent checker; stdlib axioms only; no type-in-type, "
+                       "unsafe fixpoints or assumed positivity)", ck_ok, ck_detail)
+        run.coverage["coqchk_axioms"] = ck_ax
     if ok and len(assum) < len(thm_names):
         run.obligation(f"{prop_dir}.print_assumptions_present", False,
                        f"{len(assum)} Print Assumptions outputs for {len(thm_names)} theorems")
